@@ -25,6 +25,7 @@ type sigCfg struct {
 	Named     bool   `json:"named"`
 	NamedRes  bool   `json:"namedRes"`
 	RecvBlank bool   `json:"recvBlank"`
+	Twin      bool   `json:"twin"`
 	Imp       string `json:"imp"`
 	Pkg       string `json:"pkg"`
 }
@@ -164,7 +165,18 @@ func sigConcretise(k int, s *sigCase) *b1.Case {
 	}
 	// a quarter of the accepted methods of interface Convergen reach it through an embedded interface
 	embedded := group == "" && !s.Shape.Reject && hashMod(string(js), 17, 4) == 0
-	return &b1.Case{ID: core.HashID(string(js)), JSON: js, Func: fkey, Style: c.Style, Decls: d.String(), Notes: notes, Group: group, GroupNotes: groupNotes, Embedded: embedded,
+	trailer := ""
+	if c.Twin {
+		// a converter interface of its own, sorting before or after the others, whose one method is called like this
+		// case's and has the same receiver name - on another type
+		tn := "ZzTwin"
+		if hashMod(string(js), 23, 2) == 0 {
+			tn = "AaaTwin"
+		}
+		fmt.Fprintf(&d, "\ntype SigT%d struct {\n\tX int\n}\n\ntype SigU%d struct {\n\tX int\n}\n", k, k)
+		trailer = fmt.Sprintf("\n// :convergen\ntype %s%d interface {\n\t// :recv r_c\n\t%s(*SigT%d) *SigU%d\n}\n", tn, k, name, k, k)
+	}
+	return &b1.Case{ID: core.HashID(string(js)), JSON: js, Func: fkey, Style: c.Style, Decls: d.String(), Notes: notes, Group: group, GroupNotes: groupNotes, Embedded: embedded, Trailer: trailer,
 		Method: fmt.Sprintf("%s(%s) %s", name, strings.Join(params, ", "), results), Alone: s.Shape.Reject, Data: s}
 }
 
